@@ -163,9 +163,9 @@ class DyadCarrier(object):
         vsub = [vi[subscript[1]] for vi in self.v]
 
         if is_uni_slice or is_np_slice:
-            res = 0
+            res = np.zeros(np.broadcast(usample, vsample).shape, dtype=self.dtype)[()]
             for (ui, vi) in zip(usub, vsub):
-                res += ui*vi
+                res = res + ui*vi
 
             return res
         else:
@@ -485,7 +485,7 @@ class DyadCarrier(object):
         if other.ndim == 2:
             return self.__matmul__(other)
 
-        val = np.zeros_like(self.u[0])
+        val = np.zeros(self.shape[0], dtype=np.result_type(self.dtype, other.dtype))
         for ui, vi in zip(self.u, self.v):
             val += ui * vi.dot(other)
         return val
@@ -494,7 +494,7 @@ class DyadCarrier(object):
         if other.ndim == 2:
             return self.__rmatmul__(other)
 
-        val = np.zeros_like(self.v[0])
+        val = np.zeros(self.shape[1], dtype=np.result_type(self.dtype, other.dtype))
         for ui, vi in zip(self.u, self.v):
             val += vi * other.dot(ui)
         return val
